@@ -228,6 +228,13 @@ func BankVMProfile(seed int64, out *Recorder, nOps int) *Chain {
 			}
 			deploy(who, kinds[rng.Intn(len(kinds))], value)
 		default: // call
+			if rng.Intn(6) == 0 { // a value call with empty data to an account without code: a plain transfer made by the VM
+				to := c.Accts[rng.Intn(len(c.Accts))]
+				value := uint64(amounts(who))
+				m := cvmtypes.NewMsgCall(ac.Addr.String(), to.Addr.String(), value, nil)
+				c.DoGas(who, 3000000, DefaultFee, []D{{"t": "cvm.call", "caller": Hex(ac.Addr), "callee": Hex(to.Addr), "kind": "none", "value": value, "data": "", "expect": "any"}}, nil, &m)
+				continue
+			}
 			d := pickContract()
 			if d == nil {
 				continue
